@@ -441,3 +441,437 @@ func c16SignerLiteral(o *out, d string) {
 		o.brokenDef("sign_si_Version", "no []SignerInfo{{...}} literal in Sign")
 	}
 }
+
+// ================================================================== deep embedding of statement-level code
+//
+// The functions that decide WHICH byte string is digested and checked against a signature ((*SignerInfo).Verify,
+// AuthenticatedAttributesBytes, pkcs9.Verify, finishVerify, MessageImprint.Verify) are translated statement by statement
+// into a Gallina term of type `list gstmt` (abstract syntax defined in the generated file itself).  The model
+// (coq/C16/VModel.v) INTERPRETS that term; the theorems are about the interpretation.  Nothing is pattern-matched away:
+// every operator, operand, call, argument order, branch and early return of the Go body is part of the term, constructs the
+// translator does not know become GOther / GStmtOther nodes (the interpreter answers "unknown" when it reaches one).
+// Local variables are alpha-renamed (one name per declaration, Go's block scoping resolved here) so that the interpreter
+// can use a flat store.
+
+const c16AstPreamble = `
+(* ---- abstract syntax of the translated Go bodies (names are byte strings) *)
+Inductive gexpr : Type :=
+| GVar (n : list Z)                          (* local variable, parameter or receiver; one name per declaration *)
+| GGlobal (n : list Z)                       (* package-level identifier, or pkg.Name *)
+| GNil
+| GBool (b : bool)
+| GInt (z : Z)
+| GStr (s : list Z)
+| GSel (e : gexpr) (f : list Z)              (* e.f *)
+| GIndex (e i : gexpr)                       (* e[i] *)
+| GCall (fn : list Z) (args : list gexpr)    (* f(args) / pkg.F(args) / builtin; a trailing "..." marks a spread last argument *)
+| GMeth (recv : gexpr) (m : list Z) (args : list gexpr)   (* recv.m(args) *)
+| GNot (e : gexpr)
+| GAddr (e : gexpr)                          (* &e *)
+| GDeref (e : gexpr)                         (* *e *)
+| GBin (op : Z) (a b : gexpr)                (* 1 && 2 || 3 == 4 != 5 < 6 <= 7 > 8 >= 9 + 10 - 11 & 12 | *)
+| GLit (ty : list Z) (fields : list (list Z * gexpr))     (* T{k: v, ...} *)
+| GZero (ty : list Z)                        (* zero value of a declared type (var x T) *)
+| GTypeAssert (e : gexpr) (ty : list Z)      (* e.(T), used in the comma-ok form *)
+| GOther (text : list Z).                    (* anything else, verbatim *)
+Inductive gstmt : Type :=
+| GAssign (lhs : list (list Z)) (rhs : gexpr)    (* x, y := e  and  x, y = e ; "_" is the blank identifier *)
+| GStore (lhs : gexpr) (rhs : gexpr)             (* e.f = r, e[i] = r *)
+| GExpr (e : gexpr)
+| GIf (init : list gstmt) (c : gexpr) (t e : list gstmt)
+| GReturn (es : list gexpr)
+| GStmtOther (text : list Z).
+`
+
+type gscope struct {
+	vars   map[string]string
+	parent *gscope
+}
+
+func (s *gscope) lookup(n string) (string, bool) {
+	for c := s; c != nil; c = c.parent {
+		if u, ok := c.vars[n]; ok {
+			return u, true
+		}
+	}
+	return "", false
+}
+
+type gtr struct {
+	fset *token.FileSet
+	used map[string]int
+}
+
+func (g *gtr) declare(sc *gscope, name string) string {
+	if name == "_" {
+		return "_"
+	}
+	g.used[name]++
+	u := name
+	if g.used[name] > 1 {
+		u = fmt.Sprintf("%s'%d", name, g.used[name])
+	}
+	sc.vars[name] = u
+	return u
+}
+
+func gname(s string) string { return bytesLit([]byte(s)) }
+
+func (g *gtr) text(n ast.Node) string {
+	return strings.Join(strings.Fields(printNode(g.fset, n)), " ")
+}
+
+func (g *gtr) exprs(sc *gscope, es []ast.Expr) string {
+	var parts []string
+	for _, e := range es {
+		parts = append(parts, g.expr(sc, e))
+	}
+	return "[" + strings.Join(parts, "; ") + "]"
+}
+
+var gBinOps = map[token.Token]int{token.LAND: 1, token.LOR: 2, token.EQL: 3, token.NEQ: 4, token.LSS: 5, token.LEQ: 6, token.GTR: 7,
+	token.GEQ: 8, token.ADD: 9, token.SUB: 10, token.AND: 11, token.OR: 12}
+
+func (g *gtr) expr(sc *gscope, e ast.Expr) string {
+	switch x := e.(type) {
+	case *ast.ParenExpr:
+		return g.expr(sc, x.X)
+	case *ast.Ident:
+		switch x.Name {
+		case "nil":
+			return "GNil"
+		case "true", "false":
+			return "(GBool " + x.Name + ")"
+		}
+		if u, ok := sc.lookup(x.Name); ok {
+			return "(GVar " + gname(u) + ")"
+		}
+		return "(GGlobal " + gname(x.Name) + ")"
+	case *ast.BasicLit:
+		switch x.Kind {
+		case token.INT:
+			if v, err := strconv.ParseInt(x.Value, 0, 64); err == nil {
+				return fmt.Sprintf("(GInt %d)", v)
+			}
+		case token.STRING:
+			if u, err := strconv.Unquote(x.Value); err == nil {
+				return "(GStr " + gname(u) + ")"
+			}
+		case token.CHAR:
+			if r, _, _, err := strconv.UnquoteChar(x.Value[1:len(x.Value)-1], '\''); err == nil {
+				return fmt.Sprintf("(GInt %d)", r)
+			}
+		}
+	case *ast.SelectorExpr:
+		if id, ok := x.X.(*ast.Ident); ok {
+			if _, local := sc.lookup(id.Name); !local {
+				return "(GGlobal " + gname(id.Name+"."+x.Sel.Name) + ")"
+			}
+		}
+		return "(GSel " + g.expr(sc, x.X) + " " + gname(x.Sel.Name) + ")"
+	case *ast.IndexExpr:
+		return "(GIndex " + g.expr(sc, x.X) + " " + g.expr(sc, x.Index) + ")"
+	case *ast.StarExpr:
+		return "(GDeref " + g.expr(sc, x.X) + ")"
+	case *ast.TypeAssertExpr:
+		if x.Type != nil {
+			return "(GTypeAssert " + g.expr(sc, x.X) + " " + gname(g.text(x.Type)) + ")"
+		}
+	case *ast.UnaryExpr:
+		switch x.Op {
+		case token.NOT:
+			return "(GNot " + g.expr(sc, x.X) + ")"
+		case token.AND:
+			return "(GAddr " + g.expr(sc, x.X) + ")"
+		case token.SUB:
+			if bl, ok := x.X.(*ast.BasicLit); ok && bl.Kind == token.INT {
+				if v, err := strconv.ParseInt(bl.Value, 0, 64); err == nil {
+					return fmt.Sprintf("(GInt (%d))", -v)
+				}
+			}
+		}
+	case *ast.BinaryExpr:
+		if op, ok := gBinOps[x.Op]; ok {
+			return fmt.Sprintf("(GBin %d %s %s)", op, g.expr(sc, x.X), g.expr(sc, x.Y))
+		}
+	case *ast.CallExpr:
+		spread := ""
+		if x.Ellipsis != token.NoPos {
+			spread = "..."
+		}
+		switch f := x.Fun.(type) {
+		case *ast.Ident:
+			if _, local := sc.lookup(f.Name); !local {
+				return "(GCall " + gname(f.Name+spread) + " " + g.exprs(sc, x.Args) + ")"
+			}
+		case *ast.SelectorExpr:
+			if id, ok := f.X.(*ast.Ident); ok {
+				if _, local := sc.lookup(id.Name); !local {
+					return "(GCall " + gname(id.Name+"."+f.Sel.Name+spread) + " " + g.exprs(sc, x.Args) + ")"
+				}
+			}
+			return "(GMeth " + g.expr(sc, f.X) + " " + gname(f.Sel.Name+spread) + " " + g.exprs(sc, x.Args) + ")"
+		}
+	case *ast.CompositeLit:
+		ty := ""
+		if x.Type != nil {
+			ty = g.text(x.Type)
+		}
+		var fs []string
+		for _, el := range x.Elts {
+			if kv, ok := el.(*ast.KeyValueExpr); ok {
+				fs = append(fs, "("+gname(g.text(kv.Key))+", "+g.expr(sc, kv.Value)+")")
+			} else {
+				fs = append(fs, "("+gname("")+", "+g.expr(sc, el)+")")
+			}
+		}
+		return "(GLit " + gname(ty) + " [" + strings.Join(fs, "; ") + "])"
+	}
+	return "(GOther " + gname(g.text(e)) + ")"
+}
+
+func gZeroOf(ty string) string { return "(GZero " + gname(ty) + ")" }
+
+func (g *gtr) block(sc *gscope, list []ast.Stmt) string {
+	inner := &gscope{vars: map[string]string{}, parent: sc}
+	var parts []string
+	for _, s := range list {
+		parts = append(parts, g.stmt(inner, s)...)
+	}
+	return "[" + strings.Join(parts, ";\n    ") + "]"
+}
+
+func (g *gtr) stmt(sc *gscope, s ast.Stmt) []string {
+	other := func() []string { return []string{"GStmtOther " + gname(g.text(s))} }
+	switch x := s.(type) {
+	case *ast.ExprStmt:
+		return []string{"GExpr " + g.expr(sc, x.X)}
+	case *ast.ReturnStmt:
+		return []string{"GReturn " + g.exprs(sc, x.Results)}
+	case *ast.BlockStmt:
+		return []string{"GIf [] (GBool true) " + g.block(sc, x.List) + " []"}
+	case *ast.DeclStmt:
+		gd, ok := x.Decl.(*ast.GenDecl)
+		if !ok || gd.Tok != token.VAR {
+			return other()
+		}
+		var out []string
+		for _, sp := range gd.Specs {
+			vs, ok := sp.(*ast.ValueSpec)
+			if !ok {
+				return other()
+			}
+			switch {
+			case len(vs.Values) == 0 && vs.Type != nil:
+				for _, n := range vs.Names {
+					out = append(out, "GAssign ["+gname(g.declare(sc, n.Name))+"] "+gZeroOf(g.text(vs.Type)))
+				}
+			case len(vs.Values) == 1:
+				rhs := g.expr(sc, vs.Values[0])
+				var names []string
+				for _, n := range vs.Names {
+					names = append(names, gname(g.declare(sc, n.Name)))
+				}
+				out = append(out, "GAssign ["+strings.Join(names, "; ")+"] "+rhs)
+			default:
+				return other()
+			}
+		}
+		return out
+	case *ast.AssignStmt:
+		if len(x.Rhs) != 1 || (x.Tok != token.DEFINE && x.Tok != token.ASSIGN) {
+			return other()
+		}
+		rhs := g.expr(sc, x.Rhs[0]) // evaluated before the new names come into scope
+		allIdent := true
+		for _, l := range x.Lhs {
+			if _, ok := l.(*ast.Ident); !ok {
+				allIdent = false
+			}
+		}
+		if !allIdent {
+			if len(x.Lhs) == 1 && x.Tok == token.ASSIGN {
+				return []string{"GStore " + g.expr(sc, x.Lhs[0]) + " " + rhs}
+			}
+			return other()
+		}
+		var names []string
+		for _, l := range x.Lhs {
+			n := l.(*ast.Ident).Name
+			if n == "_" {
+				names = append(names, gname("_"))
+				continue
+			}
+			if x.Tok == token.DEFINE {
+				if u, ok := sc.vars[n]; ok { // already declared in THIS scope: plain assignment
+					names = append(names, gname(u))
+				} else {
+					names = append(names, gname(g.declare(sc, n)))
+				}
+			} else {
+				u, ok := sc.lookup(n)
+				if !ok {
+					return other() // assignment to a package-level variable
+				}
+				names = append(names, gname(u))
+			}
+		}
+		return []string{"GAssign [" + strings.Join(names, "; ") + "] " + rhs}
+	case *ast.IfStmt:
+		isc := &gscope{vars: map[string]string{}, parent: sc}
+		init := "[]"
+		if x.Init != nil {
+			init = "[" + strings.Join(g.stmt(isc, x.Init), "; ") + "]"
+		}
+		cond := g.expr(isc, x.Cond)
+		thenB := g.block(isc, x.Body.List)
+		elseB := "[]"
+		switch e := x.Else.(type) {
+		case *ast.BlockStmt:
+			elseB = g.block(isc, e.List)
+		case *ast.IfStmt:
+			elseB = "[" + strings.Join(g.stmt(isc, e), "; ") + "]"
+		}
+		return []string{"GIf " + init + "\n    " + cond + "\n    " + thenB + "\n    " + elseB}
+	}
+	return other()
+}
+
+// c16Prog emits `Definition <coqName> : list gstmt` for the body of a function, `<coqName>_params : list (list Z)` for the
+// receiver (first) and parameter names, and fingerprints the function.
+func c16Prog(o *out, dir, recv, fn, coqName string) {
+	p, fd := findFunc(dir, recv, fn)
+	if fd == nil || fd.Body == nil {
+		o.brokenDef(coqName, "function "+dir+":"+recv+"."+fn+" not found")
+		return
+	}
+	g := &gtr{fset: p.fset, used: map[string]int{}}
+	sc := &gscope{vars: map[string]string{}}
+	var params []string
+	if fd.Recv != nil {
+		for _, f := range fd.Recv.List {
+			for _, n := range f.Names {
+				params = append(params, gname(g.declare(sc, n.Name)))
+			}
+		}
+	}
+	for _, f := range fd.Type.Params.List {
+		for _, n := range f.Names {
+			params = append(params, gname(g.declare(sc, n.Name)))
+		}
+	}
+	if fd.Type.Results != nil { // named results are variables too
+		for _, f := range fd.Type.Results.List {
+			for _, n := range f.Names {
+				g.declare(sc, n.Name)
+			}
+		}
+	}
+	var parts []string
+	for _, s := range fd.Body.List {
+		parts = append(parts, g.stmt(sc, s)...)
+	}
+	o.f("(* %s:%s.%s *)\n", dir, recv, fn)
+	o.f("Definition %s_params : list (list Z) := [%s].\n", coqName, strings.Join(params, "; "))
+	o.b.WriteString("Definition " + coqName + " : list gstmt :=\n  [" + strings.Join(parts, ";\n   ") + "].\n")
+	fingerprint(dir, recv, fn)
+}
+
+// c16ProgSplit: a function whose body is  <statements> ; for k, v := range COLL { BODY } ; <statements>.  The three statement
+// lists are translated in one scope pass (names stay consistent); the loop itself is modelled by hand as a fold over COLL whose
+// step is the interpretation of BODY.
+func c16ProgSplit(o *out, dir, recv, fn, coqName string) {
+	p, fd := findFunc(dir, recv, fn)
+	if fd == nil || fd.Body == nil {
+		o.brokenDef(coqName, "function "+dir+":"+recv+"."+fn+" not found")
+		return
+	}
+	g := &gtr{fset: p.fset, used: map[string]int{}}
+	sc := &gscope{vars: map[string]string{}}
+	var params []string
+	if fd.Recv != nil {
+		for _, f := range fd.Recv.List {
+			for _, n := range f.Names {
+				params = append(params, gname(g.declare(sc, n.Name)))
+			}
+		}
+	}
+	for _, f := range fd.Type.Params.List {
+		for _, n := range f.Names {
+			params = append(params, gname(g.declare(sc, n.Name)))
+		}
+	}
+	idx := -1
+	for i, s := range fd.Body.List {
+		if _, ok := s.(*ast.RangeStmt); ok {
+			idx = i
+			break
+		}
+	}
+	if idx < 0 {
+		o.brokenDef(coqName, "no top-level range loop in "+fn)
+		return
+	}
+	var pre, post []string
+	for _, s := range fd.Body.List[:idx] {
+		pre = append(pre, g.stmt(sc, s)...)
+	}
+	rs := fd.Body.List[idx].(*ast.RangeStmt)
+	coll := g.expr(sc, rs.X)
+	lsc := &gscope{vars: map[string]string{}, parent: sc}
+	var rv []string
+	for _, e := range []ast.Expr{rs.Key, rs.Value} {
+		if id, ok := e.(*ast.Ident); ok && rs.Tok == token.DEFINE {
+			rv = append(rv, gname(g.declare(lsc, id.Name)))
+		} else {
+			rv = append(rv, gname("_"))
+		}
+	}
+	body := g.block(lsc, rs.Body.List)
+	for _, s := range fd.Body.List[idx+1:] {
+		post = append(post, g.stmt(sc, s)...)
+	}
+	o.f("(* %s:%s.%s — split at its range loop *)\n", dir, recv, fn)
+	o.f("Definition %s_params : list (list Z) := [%s].\n", coqName, strings.Join(params, "; "))
+	o.b.WriteString("Definition " + coqName + "_pre : list gstmt :=\n  [" + strings.Join(pre, ";\n   ") + "].\n")
+	o.b.WriteString("Definition " + coqName + "_range_over : gexpr := " + coll + ".\n")
+	o.f("Definition %s_range_vars : list (list Z) := [%s].\n", coqName, strings.Join(rv, "; "))
+	o.b.WriteString("Definition " + coqName + "_body : list gstmt :=\n  " + body + ".\n")
+	o.b.WriteString("Definition " + coqName + "_post : list gstmt :=\n  [" + strings.Join(post, ";\n   ") + "].\n")
+	fingerprint(dir, recv, fn)
+}
+
+func init() {
+	prev := generators["C16_gen"]
+	generators["C16_gen"] = func(o *out) {
+		prev(o)
+		const d = "lib/pkcs7"
+		const d9 = "lib/pkcs9"
+		o.b.WriteString(c16AstPreamble)
+		c16Prog(o, d, "SignerInfo", "Verify", "prog_si_verify")
+		c16Prog(o, d, "SignerInfo", "AuthenticatedAttributesBytes", "prog_aab")
+		c16Prog(o, d, "AttributeList", "Bytes", "prog_attrs_bytes")
+		c16Prog(o, d, "SignerInfo", "hasEmptyAuthenticatedAttributes", "prog_has_empty_attrs")
+		c16Prog(o, d, "ContentInfo", "Bytes", "prog_ci_bytes")
+		c16ProgSplit(o, d, "SignedData", "Verify", "prog_sd_verify")
+		c16Prog(o, d9, "", "Verify", "prog_ts_verify")
+		c16Prog(o, d9, "", "finishVerify", "prog_ts_finish")
+		c16Prog(o, d9, "MessageImprint", "Verify", "prog_imprint_verify")
+		// the loops around those bodies are hand-modelled; their conditions are translated
+		fcLeaves := map[string]string{"cert.RawIssuer": "cert_issuer", "is.IssuerName.FullBytes": "si_issuer",
+			"cert.SerialNumber.Cmp(is.SerialNumber)": "(serial_cmp cert_serial si_serial)"}
+		o.f("Definition serial_cmp (a b : list Z) : Z := if list_eqb Z.eqb a b then 0 else 1. (* big.Int.Cmp on minimal two's-complement contents: 0 iff equal *)\n")
+		o.condOf(funcSpec{dir: d, recv: "SignerInfo", name: "FindCertificate", coqName: "find_cert_match",
+			params: "(cert_issuer cert_serial si_issuer si_serial : list Z)", retType: "bool", leaves: fcLeaves,
+			types: map[string]string{"cert.RawIssuer": "bytes", "is.IssuerName.FullBytes": "bytes", "bytes.Equal()": "bool"},
+			calls: map[string]string{"bytes.Equal": "list_eqb Z.eqb"}}, "if:cert.RawIssuer")
+		goLeaves := map[string]string{"raw.Type.Equal(oid)": "type_equal", "len(rest)": "rest_len"}
+		o.condOf(funcSpec{dir: d, recv: "AttributeList", name: "GetOne", coqName: "get_one_skip",
+			params: "(type_equal : bool)", retType: "bool", leaves: goLeaves, types: map[string]string{"raw.Type.Equal(oid)": "bool"}}, "if:raw.Type")
+		o.condOf(funcSpec{dir: d, recv: "AttributeList", name: "GetOne", coqName: "get_one_multiple",
+			params: "(rest_len : Z)", retType: "bool", leaves: goLeaves}, "if:len(rest)")
+		o.hasStmt(d, "AttributeList", "GetOne", "rest, err := asn1.Unmarshal(raw.Values.Bytes, dest)", "get_one_reads_values_bytes")
+		o.hasStmt(d, "AttributeList", "GetOne", "return ErrNoAttribute{oid}", "get_one_missing_is_error")
+		fingerprint(d, "SignerInfo", "FindCertificate")
+	}
+}
